@@ -1019,7 +1019,11 @@ def _collect(ctx, case, th):
 def replay(ctx, case):
     import json
 
-    fam = NO_FAMILIES  # a replay always executes the full case
+    # a replay is never excluded; only the re-issue step of the accept cases follows the state of D10a (accept()
+    # after the end), which has its own replay - otherwise a tree with D10b repaired but D10a open would report
+    # D10a under the buckets of the D10b demonstrations
+    fam = dict(NO_FAMILIES)
+    fam["D10a"] = open_families()["D10a"]
     tmp = ctx.tmpdir()
     peers.keypool()
     case = _norm(case)
